@@ -1026,6 +1026,9 @@ fn run_case(line: &str) -> String {
         // several strings deserialized one after the other in the same thread: each on its own
         #[cfg(feature = "serde")]
         "SERDEN2" => f[2..].iter().map(|h| serde_cases::node_case(&unhex(h))).collect::<Vec<_>>().join(" ;; "),
+        // several contexts round-tripped one after the other in the same thread (the last one is the one that is judged)
+        #[cfg(feature = "serde")]
+        "SERDEC2" => f.get(2).copied().unwrap_or("").split('|').map(serde_cases::ctx_case).collect::<Vec<_>>().join(" ;; "),
         #[cfg(feature = "serde")]
         "SERDEC" => serde_cases::ctx_case(f.get(2).copied().unwrap_or("")),
         k => panic!("unknown case kind {}", k),
